@@ -1,0 +1,331 @@
+//go:build verif
+
+package gmars
+
+// Contracts for gvc (see /verif/DESIGN.md). This file is comment-only and is
+// not compiled unless the build tag `verif` is set.
+
+// ---------------------------------------------------------------------------
+// spec functions
+
+//@ pure fold(p int, lim int, m int) = ite(p % lim > lim / 2, p % lim + (m - lim), p % lim)
+// slot(start, i, size): index of the i-th queued element in the circular buffer (an uninterpreted
+// function with a definitional axiom, so that quantifier triggers contain no arithmetic)
+//@ uf slot(start int, i int, size int) = (start + i) % size
+//@ pure pqInv(q *processQueue) = q != nil && len(q.queue) == q.size && q.size >= 1 && q.length <= q.size
+//@      && q.start < q.size && q.end < q.size && q.end == slot(q.start, q.length, q.size)
+//@ pure qLen(q *processQueue) = q.length
+//@ pure qAt(q *processQueue, i int) = q.queue[slot(q.start, i, q.size)]
+
+// ---------------------------------------------------------------------------
+// sim.go
+
+//@ func (*reportSim).readFold
+//@   panics [C04]
+//@   requires s != nil && s.readLimit >= 1
+//@   modifies nothing
+//@   ensures [C01] s.readLimit <= s.m ==> result == fold(pointer, s.readLimit, s.m)
+//@   ensures [C11] s.readLimit <= s.m ==> result < s.m && (result <= s.readLimit / 2 || s.m - result <= s.readLimit / 2)
+
+//@ func (*reportSim).writeFold
+//@   panics [C04]
+//@   requires s != nil && s.writeLimit >= 1
+//@   modifies nothing
+//@   ensures [C01] s.writeLimit <= s.m ==> result == fold(pointer, s.writeLimit, s.m)
+//@   ensures [C11] s.writeLimit <= s.m ==> result < s.m && (result <= s.writeLimit / 2 || s.m - result <= s.writeLimit / 2)
+
+// ---------------------------------------------------------------------------
+// queue.go
+
+//@ func (*processQueue).Len
+//@   panics [C04]
+//@   requires q != nil
+//@   modifies nothing
+//@   ensures result == qLen(q)
+
+//@ func (*processQueue).Push
+//@   panics [C04]
+//@   requires pqInv(q)
+//@   modifies q.queue[q.end], q.end, q.length
+//@   ensures pqInv(q) && q.size == old(q.size) && q.start == old(q.start) && q.queue == old(q.queue)
+// concrete (slot level) view
+//@   ensures [C04] old(q.length) >= q.size ==> q.length == old(q.length) && q.end == old(q.end) && q.queue[q.end] == old(q.queue[q.end])
+//@   ensures [C04] old(q.length) < q.size ==> q.length == old(q.length) + 1 && q.end == (old(q.end) + 1) % q.size && q.queue[old(q.end)] == a
+// abstract (sequence) view
+//@   ensures [C01][C02] old(q.length) >= q.size ==> qLen(q) == old(qLen(q)) && (forall i :: 0 <= i && i < qLen(q) ==> qAt(q, i) == old(qAt(q, i)))
+//@   ensures [C01][C02] old(q.length) < q.size ==> qLen(q) == old(qLen(q)) + 1 && qAt(q, old(qLen(q))) == a
+//@      && (forall i :: 0 <= i && i < old(qLen(q)) ==> qAt(q, i) == old(qAt(q, i)))
+
+//@ func (*processQueue).Pop
+//@   panics [C04]
+//@   requires pqInv(q)
+//@   modifies q.start, q.length
+//@   ensures pqInv(q)
+//@   ensures [C02] old(q.length) == 0 ==> result.1 != nil && result.0 == 0 && q.length == 0 && q.start == old(q.start)
+//@   ensures [C02] old(q.length) > 0 ==> result.1 == nil && result.0 == old(qAt(q, 0)) && qLen(q) == old(qLen(q)) - 1
+//@      && (forall i :: 0 <= i && i < qLen(q) ==> qAt(q, i) == old(qAt(q, i + 1)))
+
+//@ extern fmt.Errorf
+//@   modifies nothing
+//@   ensures result != nil
+
+// ---------------------------------------------------------------------------
+// simulator state predicates
+
+//@ pure wfI(x Instruction, m int) = x.A < m && x.B < m && x.Op <= 16 && x.OpMode <= 6 && x.AMode <= 7 && x.BMode <= 7
+//@ pure memOK(s *reportSim) = s != nil && s.m >= 1 && len(s.mem) == s.m && off(s.mem) == 0
+//@ pure memWf(s *reportSim) = forall a :: 0 <= a && a < s.m ==> wfI(s.mem[a], s.m)
+//@ pure wOK(s *reportSim, w *warrior) = w != nil && 0 <= w.index && w.index < s.warriorCount && pqInv(w.pq)
+// every slot of the circular buffer (live or not) holds an address below m
+//@ pure qAllBelow(q *processQueue, m int) = forall j :: 0 <= j && j < len(q.queue) ==> q.queue[j] < m
+//@ pure hPre(s *reportSim, w *warrior, WAB int) = memOK(s) && wOK(s, w) && WAB < s.m
+//@ pure funcM(s *reportSim) = s.m <= 4294967296
+
+// two-state predicates (use old())
+//@ pure memSameExcept(s *reportSim, x int) = s.mem == old(s.mem) && (forall a :: 0 <= a && a < s.m && a != x ==> s.mem[a] == old(s.mem[a]))
+//@ pure memSame(s *reportSim) = s.mem == old(s.mem) && (forall a :: 0 <= a && a < s.m ==> s.mem[a] == old(s.mem[a]))
+//@ pure qFrame(q *processQueue) = q.size == old(q.size) && q.start == old(q.start) && q.queue == old(q.queue)
+//@ pure qSame(q *processQueue) = qFrame(q) && q.length == old(q.length) && q.end == old(q.end)
+//@      && (forall i :: 0 <= i && i < q.length ==> qAt(q, i) == old(qAt(q, i)))
+//@ pure qPushed(q *processQueue, a int) = pqInv(q) && qFrame(q)
+//@      && (old(q.length) >= q.size ==> q.length == old(q.length) && (forall i :: 0 <= i && i < q.length ==> qAt(q, i) == old(qAt(q, i))))
+//@      && (old(q.length) < q.size ==> q.length == old(q.length) + 1 && qAt(q, old(q.length)) == a
+//@            && (forall i :: 0 <= i && i < old(q.length) ==> qAt(q, i) == old(qAt(q, i))))
+
+//@ pure qStep(q *processQueue, m int) = pqInv(q) && qFrame(q) && q.length >= old(q.length) && q.length <= old(q.length) + 1
+//@      && (q.queue[old(q.end)] < m || q.queue[old(q.end)] == old(q.queue[q.end]))
+
+// ---------------------------------------------------------------------------
+// ICWS'94 per-opcode semantics, table-driven: a modifier denotes which field of
+// the A-instruction feeds which field of the destination (1 = A-field, 2 = B-field, 0 = none)
+
+//@ pure srcA(md int) = ite(md == A || md == F || md == I, 1, ite(md == BA || md == X, 2, 0))
+//@ pure srcB(md int) = ite(md == B || md == F || md == I, 2, ite(md == AB || md == X, 1, 0))
+//@ pure pick(i Instruction, k int) = ite(k == 1, i.A, i.B)
+//@ pure movSpec(md int, dst Instruction, ira Instruction) = ite(md == I, ira,
+//@      dst{A: ite(srcA(md) != 0, pick(ira, srcA(md)), dst.A)}{B: ite(srcB(md) != 0, pick(ira, srcB(md)), dst.B)})
+//@ pure arith(op int, x int, y int, m int) = ite(op == ADD, (x + y) % m, ite(op == SUB, (x + (m - y)) % m, ite(op == MUL, (x * y) % m, ite(op == DIV, x / y, x % y))))
+//@ pure arithSpec(op int, md int, dst Instruction, ira Instruction, irb Instruction, m int) =
+//@      dst{A: ite(srcA(md) != 0, arith(op, irb.A, pick(ira, srcA(md)), m), dst.A)}{B: ite(srcB(md) != 0, arith(op, irb.B, pick(ira, srcB(md)), m), dst.B)}
+// DIV / MOD: a selected pair is written iff its divisor is non-zero; the task dies iff some selected divisor is zero
+//@ pure divSpec(op int, md int, dst Instruction, ira Instruction, irb Instruction, m int) =
+//@      dst{A: ite(srcA(md) != 0 && pick(ira, srcA(md)) != 0, arith(op, irb.A, pick(ira, srcA(md)), m), dst.A)}{B: ite(srcB(md) != 0 && pick(ira, srcB(md)) != 0, arith(op, irb.B, pick(ira, srcB(md)), m), dst.B)}
+//@ pure divDies(md int, ira Instruction) = (srcA(md) != 0 && pick(ira, srcA(md)) == 0) || (srcB(md) != 0 && pick(ira, srcB(md)) == 0)
+// B-operand fields looked at by JMZ / JMN / DJN
+//@ pure testsA(md int) = srcA(md) != 0
+//@ pure testsB(md int) = srcB(md) != 0
+//@ pure allZero(md int, x Instruction) = (testsA(md) ==> x.A == 0) && (testsB(md) ==> x.B == 0)
+//@ pure dec1(v int, m int) = (v + m - 1) % m
+//@ pure djnSpec(md int, dst Instruction, m int) = dst{A: ite(testsA(md), dec1(dst.A, m), dst.A)}{B: ite(testsB(md), dec1(dst.B, m), dst.B)}
+//@ pure wrapDec(v int) = ite(v == 0, 18446744073709551615, v - 1)
+//@ pure djnJumps(md int, irb Instruction) = (testsA(md) && wrapDec(irb.A) != 0) || (testsB(md) && wrapDec(irb.B) != 0)
+// comparisons: every selected pair (A-instruction field, B-instruction field)
+//@ pure cmpAll(md int, ira Instruction, irb Instruction) = ite(md == I, ira == irb,
+//@      (srcA(md) != 0 ==> pick(ira, srcA(md)) == irb.A) && (srcB(md) != 0 ==> pick(ira, srcB(md)) == irb.B))
+//@ pure sltAll(md int, ira Instruction, irb Instruction) =
+//@      (srcA(md) != 0 ==> pick(ira, srcA(md)) < irb.A) && (srcB(md) != 0 ==> pick(ira, srcB(md)) < irb.B)
+
+// ---------------------------------------------------------------------------
+// reporting (trusted: user supplied listeners do not mutate the simulator)
+
+//@ trusted (*reportSim).Report
+//@   requires s != nil
+//@   requires [C15] report.Type >= WarriorSpawn ==> report.Address < s.m && 0 <= report.WarriorIndex && report.WarriorIndex < s.warriorCount
+//@   modifies nothing
+
+// ---------------------------------------------------------------------------
+// simops.go
+
+//@ func (*reportSim).mov
+//@   panics [C04]
+//@   requires hPre(s, w, WAB) && PC < s.m
+//@   modifies s.mem[WAB], w.pq.queue[w.pq.end], w.pq.end, w.pq.length
+//@   ensures [C04] qStep(w.pq, s.m)
+//@   ensures qPushed(w.pq, (PC + 1) % s.m)
+//@   ensures [C04] wfI(IRA, s.m) && wfI(old(s.mem[WAB]), s.m) ==> wfI(s.mem[WAB], s.m)
+//@   ensures [C01] IR.OpMode <= 6 ==> s.mem[WAB] == movSpec(IR.OpMode, old(s.mem[WAB]), IRA)
+
+//@ func (*reportSim).add
+//@   panics [C04]
+//@   requires hPre(s, w, WAB) && PC < s.m
+//@   modifies s.mem[WAB], w.pq.queue[w.pq.end], w.pq.end, w.pq.length
+//@   ensures [C04] qStep(w.pq, s.m)
+//@   ensures qPushed(w.pq, (PC + 1) % s.m)
+//@   ensures [C04] wfI(old(s.mem[WAB]), s.m) ==> wfI(s.mem[WAB], s.m)
+//@   ensures [C01] IR.OpMode <= 6 && funcM(s) && wfI(IRA, s.m) && wfI(IRB, s.m) ==> s.mem[WAB] == arithSpec(ADD, IR.OpMode, old(s.mem[WAB]), IRA, IRB, s.m)
+
+//@ func (*reportSim).sub
+//@   panics [C04]
+//@   requires hPre(s, w, WAB) && PC < s.m
+//@   modifies s.mem[WAB], w.pq.queue[w.pq.end], w.pq.end, w.pq.length
+//@   ensures [C04] qStep(w.pq, s.m)
+//@   ensures qPushed(w.pq, (PC + 1) % s.m)
+//@   ensures [C04] wfI(old(s.mem[WAB]), s.m) ==> wfI(s.mem[WAB], s.m)
+//@   ensures [C01] IR.OpMode <= 6 && funcM(s) && wfI(IRA, s.m) && wfI(IRB, s.m) ==> s.mem[WAB] == arithSpec(SUB, IR.OpMode, old(s.mem[WAB]), IRA, IRB, s.m)
+
+//@ func (*reportSim).mul
+//@   panics [C04]
+//@   requires hPre(s, w, WAB) && PC < s.m
+//@   modifies s.mem[WAB], w.pq.queue[w.pq.end], w.pq.end, w.pq.length
+//@   ensures [C04] qStep(w.pq, s.m)
+//@   ensures qPushed(w.pq, (PC + 1) % s.m)
+//@   ensures [C04] wfI(old(s.mem[WAB]), s.m) ==> wfI(s.mem[WAB], s.m)
+//@   ensures [C01] IR.OpMode <= 6 && funcM(s) && wfI(IRA, s.m) && wfI(IRB, s.m) ==> s.mem[WAB] == arithSpec(MUL, IR.OpMode, old(s.mem[WAB]), IRA, IRB, s.m)
+
+//@ func (*reportSim).div
+//@   panics [C04]
+//@   requires hPre(s, w, WAB) && PC < s.m
+//@   modifies s.mem[WAB], w.pq.queue[w.pq.end], w.pq.end, w.pq.length
+//@   ensures [C04] qStep(w.pq, s.m)
+//@   ensures [C04] pqInv(w.pq) && qFrame(w.pq) && (wfI(IRB, s.m) && wfI(IRA, s.m) && wfI(old(s.mem[WAB]), s.m) ==> wfI(s.mem[WAB], s.m))
+//@   ensures [C01] IR.OpMode <= 6 ==> s.mem[WAB] == divSpec(DIV, IR.OpMode, old(s.mem[WAB]), IRA, IRB, s.m)
+//@   ensures [C01] IR.OpMode <= 6 ==> ite(divDies(IR.OpMode, IRA), qSame(w.pq), qPushed(w.pq, (PC + 1) % s.m))
+//@   ensures IR.OpMode > 6 ==> qPushed(w.pq, (PC + 1) % s.m)
+
+//@ func (*reportSim).mod
+//@   panics [C04]
+//@   requires hPre(s, w, WAB) && PC < s.m
+//@   modifies s.mem[WAB], w.pq.queue[w.pq.end], w.pq.end, w.pq.length
+//@   ensures [C04] qStep(w.pq, s.m)
+//@   ensures [C04] pqInv(w.pq) && qFrame(w.pq) && (wfI(IRB, s.m) && wfI(IRA, s.m) && wfI(old(s.mem[WAB]), s.m) ==> wfI(s.mem[WAB], s.m))
+//@   ensures [C01] IR.OpMode <= 6 ==> s.mem[WAB] == divSpec(MOD, IR.OpMode, old(s.mem[WAB]), IRA, IRB, s.m)
+//@   ensures [C01] IR.OpMode <= 6 ==> ite(divDies(IR.OpMode, IRA), qSame(w.pq), qPushed(w.pq, (PC + 1) % s.m))
+//@   ensures IR.OpMode > 6 ==> qPushed(w.pq, (PC + 1) % s.m)
+
+//@ func (*reportSim).jmz
+//@   panics [C04]
+//@   requires memOK(s) && wOK(s, w) && PC < s.m && RAB < s.m
+//@   modifies w.pq.queue[w.pq.end], w.pq.end, w.pq.length
+//@   ensures [C04] qStep(w.pq, s.m)
+//@   ensures [C01] IR.OpMode <= 6 ==> qPushed(w.pq, ite(allZero(IR.OpMode, IRB), RAB, (PC + 1) % s.m))
+//@   ensures IR.OpMode > 6 ==> qSame(w.pq)
+
+//@ func (*reportSim).jmn
+//@   panics [C04]
+//@   requires memOK(s) && wOK(s, w) && PC < s.m && RAB < s.m
+//@   modifies w.pq.queue[w.pq.end], w.pq.end, w.pq.length
+//@   ensures [C04] qStep(w.pq, s.m)
+//@   ensures [C04] pqInv(w.pq) && qFrame(w.pq)
+//@   ensures [C01] IR.OpMode <= 6 ==> qPushed(w.pq, ite(allZero(IR.OpMode, IRB), (PC + 1) % s.m, RAB))
+//@   ensures IR.OpMode > 6 ==> qSame(w.pq)
+
+//@ func (*reportSim).djn
+//@   panics [C04]
+//@   requires hPre(s, w, WAB) && PC < s.m && RAB < s.m
+//@   modifies s.mem[WAB], w.pq.queue[w.pq.end], w.pq.end, w.pq.length
+//@   ensures [C04] qStep(w.pq, s.m)
+//@   ensures [C04] pqInv(w.pq) && qFrame(w.pq) && (wfI(old(s.mem[WAB]), s.m) ==> wfI(s.mem[WAB], s.m))
+//@   ensures [C01] IR.OpMode <= 6 && funcM(s) && wfI(old(s.mem[WAB]), s.m) ==> s.mem[WAB] == djnSpec(IR.OpMode, old(s.mem[WAB]), s.m)
+//@   ensures [C01] IR.OpMode <= 6 ==> qPushed(w.pq, ite(djnJumps(IR.OpMode, IRB), RAB, (PC + 1) % s.m))
+//@   ensures IR.OpMode > 6 ==> qPushed(w.pq, (PC + 1) % s.m)
+
+//@ func (*reportSim).cmp
+//@   panics [C04]
+//@   requires memOK(s) && wOK(s, w) && PC < s.m
+//@   modifies w.pq.queue[w.pq.end], w.pq.end, w.pq.length
+//@   ensures [C04] qStep(w.pq, s.m)
+//@   ensures [C01] IR.OpMode <= 6 && funcM(s) ==> qPushed(w.pq, ite(cmpAll(IR.OpMode, IRA, IRB), (PC + 2) % s.m, (PC + 1) % s.m))
+//@   ensures IR.OpMode > 6 ==> qPushed(w.pq, (PC + 1) % s.m)
+
+//@ func (*reportSim).sne
+//@   panics [C04]
+//@   requires memOK(s) && wOK(s, w) && PC < s.m
+//@   modifies w.pq.queue[w.pq.end], w.pq.end, w.pq.length
+//@   ensures [C04] qStep(w.pq, s.m)
+//@   ensures [C01] IR.OpMode <= 6 && funcM(s) ==> qPushed(w.pq, ite(cmpAll(IR.OpMode, IRA, IRB), (PC + 1) % s.m, (PC + 2) % s.m))
+//@   ensures IR.OpMode > 6 ==> qPushed(w.pq, (PC + 1) % s.m)
+
+//@ func (*reportSim).slt
+//@   panics [C04]
+//@   requires memOK(s) && wOK(s, w) && PC < s.m
+//@   modifies w.pq.queue[w.pq.end], w.pq.end, w.pq.length
+//@   ensures [C04] qStep(w.pq, s.m)
+//@   ensures [C01] IR.OpMode <= 6 && funcM(s) ==> qPushed(w.pq, ite(sltAll(IR.OpMode, IRA, IRB), (PC + 2) % s.m, (PC + 1) % s.m))
+//@   ensures IR.OpMode > 6 ==> qPushed(w.pq, (PC + 1) % s.m)
+
+// ---------------------------------------------------------------------------
+// exec: ICWS'94 operand evaluation and step, as pure functions over the core as a
+// mathematical array (independent, table-driven transcription of the draft's
+// reference emulator plus the A-number indirect modes)
+
+//@ pure usesA(mode int) = mode == A_INDIRECT || mode == A_DECREMENT || mode == A_INCREMENT
+//@ pure isInd(mode int) = mode >= 2
+//@ pure isPre(mode int) = mode == A_DECREMENT || mode == B_DECREMENT
+//@ pure isPost(mode int) = mode == A_INCREMENT || mode == B_INCREMENT
+//@ pure fld(x Instruction, a bool) = ite(a, x.A, x.B)
+//@ pure setf(x Instruction, a bool, v int) = ite(a, x{A: v}, x{B: v})
+// the cell whose field is pre-decremented / post-incremented: reached through the write-folded primary pointer
+//@ pure sideCell(PC int, m int, W int, f int) = (PC + fold(f, W, m)) % m
+//@ pure opPre(c []Instruction, PC int, m int, W int, mode int, f int) = ite(isPre(mode),
+//@      c[sideCell(PC, m, W, f) := setf(c[sideCell(PC, m, W, f)], usesA(mode), (fld(c[sideCell(PC, m, W, f)], usesA(mode)) + m - 1) % m)], c)
+//@ pure opPost(c []Instruction, PC int, m int, W int, mode int, f int) = ite(isPost(mode),
+//@      c[sideCell(PC, m, W, f) := setf(c[sideCell(PC, m, W, f)], usesA(mode), (fld(c[sideCell(PC, m, W, f)], usesA(mode)) + 1) % m)], c)
+// final (folded) pointer of an operand against core c (c = core after the pre-decrement), with limit lim
+//@ pure opPtr(c []Instruction, PC int, m int, lim int, mode int, f int) = ite(mode == IMMEDIATE, 0, ite(isInd(mode),
+//@      fold(fold(f, lim, m) + fld(c[(PC + fold(f, lim, m)) % m], usesA(mode)), lim, m), fold(f, lim, m)))
+
+//@ pure nSucc(op int, md int, ira Instruction) = ite(op == DAT, 0, ite(op == SPL, 2, ite((op == DIV || op == MOD) && divDies(md, ira), 0, 1)))
+//@ pure succ1(op int, md int, ira Instruction, irb Instruction, next int, skip int, RAB int) =
+//@      ite(op == JMP, RAB,
+//@      ite(op == JMZ, ite(allZero(md, irb), RAB, next),
+//@      ite(op == JMN, ite(allZero(md, irb), next, RAB),
+//@      ite(op == DJN, ite(djnJumps(md, irb), RAB, next),
+//@      ite(op == CMP || op == SEQ, ite(cmpAll(md, ira, irb), skip, next),
+//@      ite(op == SNE, ite(cmpAll(md, ira, irb), next, skip),
+//@      ite(op == SLT, ite(sltAll(md, ira, irb), skip, next), next)))))))
+//@ pure opResult(op int, md int, dst Instruction, ira Instruction, irb Instruction, m int) =
+//@      ite(op == MOV, movSpec(md, dst, ira),
+//@      ite(op == ADD || op == SUB || op == MUL, arithSpec(op, md, dst, ira, irb, m),
+//@      ite(op == DIV || op == MOD, divSpec(op, md, dst, ira, irb, m),
+//@      ite(op == DJN, djnSpec(md, dst, m), dst))))
+// two pushes in a row (SPL): the second one is dropped when the queue fills up
+//@ pure qPushed2(q *processQueue, a int, b int) = pqInv(q) && qFrame(q)
+//@      && (forall i :: 0 <= i && i < old(q.length) ==> qAt(q, i) == old(qAt(q, i)))
+//@      && qAt(q, old(q.length)) == a
+//@      && ite(old(q.length) + 1 >= q.size, q.length == old(q.length) + 1, q.length == old(q.length) + 2 && qAt(q, old(q.length) + 1) == b)
+
+//@ pure limitsOK(s *reportSim) = 1 <= s.readLimit && s.readLimit <= s.m && 1 <= s.writeLimit && s.writeLimit <= s.m
+//@ pure funcOK(s *reportSim) = limitsOK(s) && funcM(s)
+
+//@ pure execPre(s *reportSim, w *warrior, PC int) = memOK(s) && memWf(s) && s.readLimit >= 1 && s.writeLimit >= 1 && PC < s.m
+//@      && wOK(s, w) && w.pq.length < w.pq.size && qAllBelow(w.pq, s.m)
+
+//@ func (*reportSim).exec
+//@   arith uf
+//@   panics [C04]
+//@   requires execPre(s, w, PC)
+//@   split s.mem[PC].AMode in 0..7
+//@   split s.mem[PC].BMode in 0..7
+//@   modifies s.mem[*], w.pq.queue[*], w.pq.end, w.pq.length
+// the ICWS'94 operand evaluation of the instruction at PC against the entry core c0
+//@   spec m = s.m
+//@   spec R = s.readLimit
+//@   spec W = s.writeLimit
+//@   spec c0 = elems(s.mem)
+//@   spec IR0 = s.mem[PC]
+//@   spec cA1 = opPre(c0, PC, m, W, IR0.AMode, IR0.A)
+//@   spec rpa = opPtr(cA1, PC, m, R, IR0.AMode, IR0.A)
+//@   spec ira = cA1[(PC + rpa) % m]
+//@   spec cA2 = opPost(cA1, PC, m, W, IR0.AMode, IR0.A)
+//@   spec cB1 = opPre(cA2, PC, m, W, IR0.BMode, IR0.B)
+//@   spec rpb = opPtr(cB1, PC, m, R, IR0.BMode, IR0.B)
+//@   spec wpb = opPtr(cB1, PC, m, W, IR0.BMode, IR0.B)
+//@   spec irb = cB1[(PC + rpb) % m]
+//@   spec cB2 = opPost(cB1, PC, m, W, IR0.BMode, IR0.B)
+//@   ensures [C04] memOK(s) && s.mem == old(s.mem) && memWf(s)
+//@   ensures [C04] pqInv(w.pq) && qFrame(w.pq) && w.pq.length >= old(w.pq.length) && w.pq.length <= old(w.pq.length) + 2 && qAllBelow(w.pq, s.m)
+//@   ensures [C01] funcOK(s) ==>
+//@      let WAB = (PC + wpb) % m in let RAB = (PC + rpa) % m in
+//@      let cF = cB2[WAB := opResult(IR0.Op, IR0.OpMode, cB2[WAB], ira, irb, m)] in
+//@      let n = nSucc(IR0.Op, IR0.OpMode, ira) in
+//@      let s1 = ite(IR0.Op == SPL, (PC + 1) % m, succ1(IR0.Op, IR0.OpMode, ira, irb, (PC + 1) % m, (PC + 2) % m, RAB)) in
+//@      (forall a :: 0 <= a && a < m ==> s.mem[a] == cF[a])
+//@      && (n == 0 ==> qSame(w.pq)) && (n == 1 ==> qPushed(w.pq, s1)) && (n == 2 ==> qPushed2(w.pq, s1, RAB))
+// The proof is cut after operand evaluation: phase 1 (64 addressing-mode cases) establishes
+// the operand facts below, phase 2 (17 opcode cases) derives the postconditions from them
+// with the spec values above kept opaque.
+//@   cut "WAB := (PC + WPB) % s.m"
+//@   split IR.Op | IR0.Op in 0..16
+//@   assert [C04] memOK(s) && s.mem == old(s.mem) && memWf(s) && IR == IR0 && IR0 == old(s.mem[PC]) && wfI(IR, s.m) && wfI(IRA, s.m) && wfI(IRB, s.m)
+//@   assert [C04] m == s.m && R == s.readLimit && W == s.writeLimit
+//@   assert [C01] funcOK(s) ==> IRA == ira && IRB == irb && WPB == wpb && RPA == rpa && RPB == rpb && rpa < m && wpb < m && rpb < m && (forall a :: 0 <= a && a < m ==> s.mem[a] == cB2[a])
